@@ -21,6 +21,7 @@ def handle (tb : Tables) (c impl : T) : String :=
     | some (ins, vds, decl, given, calls, hs) =>
       let ext := nativeExt hs
       let tin := inTbl tb
+      let cfgCur := cfgCurOf tb
       let fresh := calls.map (fun sup => encOutcome (formArgs cfgCur ext tin ins vds sup decl given))
       let once := fun (inPlace : Bool) => (formArgsSeq inPlace cfgCur ext tin ins decl vds given calls).map encOutcome
       let enc := fun (os : List T) (same : Bool) =>
